@@ -5,7 +5,10 @@
      C.slots[i] = [next, prev, key, val, used]     slot ids 1..Len(slots), 0 = NULL
      C.heads    = function bucket -> slot id        (only buckets ever touched are stored)
      C.free     = head of the free list, C.size, C.cap, C.nalloc (number of allocated blocks)
-   Keys are msb*256 + lsb + 32768*percussive; values map instrument index -> token (0 = blank).
+   Keys are msb*256 + lsb + 32768*percussive; values map instrument index -> the instrument LAST WRITTEN there, complete:
+   a tuple of the 36 fields of OPN2_Instrument (InsFields below: note offset, velocity offset, percussion key, flags,
+   fbalg, lfosens, 4 x 7 operator bytes, both delays).  The flags are part of the value like any other field: the map stores
+   what was written whatever the flag byte says (blank, pseudo-8op, reserved bits), over whatever the slot held before.
    A bank holds the instruments 0..127: the instrument API (opn2_getInstrument / opn2_setInstrument) rejects every other
    index with -1 and leaves every bank as it was (the slots lie side by side in one allocation block, so a write at
    index 128 would land on the header and the first instrument of the NEXT slot).  Indices are unsigned in the API:
@@ -16,7 +19,31 @@ Hash(key) == ((key % 128) + ((key \div 256) * 128)) % 256
 MinAlloc == 4
 InsCount == 128
 InsIdxOk(idx) == idx >= 0 /\ idx < InsCount
-BlankVal == <<>>            \* sequence of <<idx, token>> pairs written so far (absent = blank)
+BlankVal == <<>>            \* sequence of <<idx, instrument>> pairs written so far (absent = BlankIns)
+
+\* the instrument value: field positions of the 36-tuple (signed: noff -32768..32767, veloff -128..127; delays 0..65535; other bytes)
+InsFields == <<"note_offset", "midi_velocity_offset", "percussion_key_number", "inst_flags", "fbalg", "lfosens">>
+             \o [i \in 1..28 |-> "op" \o ToString((i - 1) \div 7) \o "." \o <<"dtfm_30", "level_40", "rsatk_50", "amdecay1_60", "decay2_70", "susrel_80", "ssgeg_90">>[((i - 1) % 7) + 1]]
+             \o <<"delay_on_ms", "delay_off_ms">>
+InsLen == 36
+FNoff == 1  FVeloff == 2  FDrum == 3  FFlags == 4  FFbalg == 5  FLfosens == 6  FOp0 == 7  FDon == 35  FDoff == 36
+FlagPseudo8op == 1
+FlagBlank == 2
+\* every instrument of a newly created bank: the blank flag and nothing else
+BlankIns == [i \in 1..InsLen |-> IF i = FFlags THEN FlagBlank ELSE 0]
+InsHasFlag(v, f) == (v[FFlags] \div f) % 2 = 1
+InsDataZero(v) == \A i \in 1..InsLen : i = FFlags \/ i = FDrum \/ v[i] = 0
+InsWellFormed(v) == /\ Len(v) = InsLen /\ v[FNoff] \in -32768..32767 /\ v[FVeloff] \in -128..127 /\ v[FDon] \in 0..65535 /\ v[FDoff] \in 0..65535
+                    /\ \A i \in 3..34 : v[i] \in 0..255
+\* what a WOPN version-2 bank file keeps of an instrument (the route of opn2_openBankData): no velocity offset, no flag
+\* byte - "null delays indicate the blank instrument", and a blank instrument is saved with null delays; all voice data
+\* (note offset, percussion key, fbalg, lfosens, operators) is kept also for a blank instrument
+WopnV2Ins(v) ==
+  LET blank == InsHasFlag(v, FlagBlank) \/ (v[FDon] = 0 /\ v[FDoff] = 0) IN
+  [i \in 1..InsLen |-> CASE i = FVeloff -> 0
+                        [] i = FFlags -> IF blank THEN FlagBlank ELSE 0
+                        [] i = FDon \/ i = FDoff -> IF blank THEN 0 ELSE v[i]
+                        [] OTHER -> v[i]]
 
 C0 == [slots |-> <<>>, heads |-> <<>>, free |-> 0, size |-> 0, cap |-> 0, nalloc |-> 0]
 
@@ -88,13 +115,13 @@ Clear(C) == [ClearBuckets(C, BucketsSorted(C)) EXCEPT !.size = 0]
 Iter(C) == FlattenSeq([i \in 1..Len(BucketsSorted(C)) |-> ChainOf(C, BHead(C, BucketsSorted(C)[i]))])
 IterKeys(C) == [i \in DOMAIN Iter(C) |-> C.slots[Iter(C)[i]].key]
 
-\* values: last token written per instrument index
-ValGet(v, idx) == LET i == FirstIdx(v, LAMBDA r : r[1] = idx) IN IF i = 0 THEN 0 ELSE v[i][2]
-ValSet(v, idx, tok) == LET i == FirstIdx(v, LAMBDA r : r[1] = idx) IN IF i = 0 THEN Append(v, <<idx, tok>>) ELSE [v EXCEPT ![i] = <<idx, tok>>]
+\* values: the instrument last written per instrument index (complete, flags included; never merged with the earlier content)
+ValGet(v, idx) == LET i == FirstIdx(v, LAMBDA r : r[1] = idx) IN IF i = 0 THEN BlankIns ELSE v[i][2]
+ValSet(v, idx, ins) == LET i == FirstIdx(v, LAMBDA r : r[1] = idx) IN IF i = 0 THEN Append(v, <<idx, ins>>) ELSE [v EXCEPT ![i] = <<idx, ins>>]
 
 ---------------------------------------------------------------------------
 (* The abstract map and the API-level step.  A: sequence of [key, val] (order irrelevant).
-   op: [o, key, mode, n, idx, tok, keys] *)
+   op: [o, key, mode, n, idx, ins, keys] *)
 AIdx(A, key) == FirstIdx(A, LAMBDA r : r.key = key)
 AHas(A, key) == AIdx(A, key) # 0
 AKeys(A) == { A[i].key : i \in DOMAIN A }
@@ -108,7 +135,7 @@ ApiStep(C, op) ==
     [] op.o = "remove" -> LET s == BucketFind(C, op.key) IN IF s = 0 THEN [c |-> C, r |-> -1] ELSE [c |-> Erase(C, s), r |-> 0]
     [] op.o = "setins" -> LET s == BucketFind(C, op.key) IN
                           IF s = 0 \/ ~InsIdxOk(op.idx) THEN [c |-> C, r |-> -1]
-                          ELSE [c |-> [C EXCEPT !.slots[s].val = ValSet(@, op.idx, op.tok)], r |-> 0]
+                          ELSE [c |-> [C EXCEPT !.slots[s].val = ValSet(@, op.idx, op.ins)], r |-> 0]
     [] op.o = "getins" -> [c |-> C, r |-> IF BucketFind(C, op.key) # 0 /\ InsIdxOk(op.idx) THEN 0 ELSE -1]
     [] op.o = "clear" -> [c |-> Clear(C), r |-> 0]
     [] OTHER -> [c |-> C, r |-> 0]
@@ -116,7 +143,7 @@ ApiStep(C, op) ==
 AbsStep(A, op, r) ==
   CASE op.o = "get" /\ op.mode # "find" /\ r = 0 /\ ~AHas(A, op.key) -> Append(A, [key |-> op.key, val |-> BlankVal])
     [] op.o = "remove" /\ r = 0 -> RemoveAt(A, AIdx(A, op.key))
-    [] op.o = "setins" /\ r = 0 -> [A EXCEPT ![AIdx(A, op.key)].val = ValSet(@, op.idx, op.tok)]
+    [] op.o = "setins" /\ r = 0 -> [A EXCEPT ![AIdx(A, op.key)].val = ValSet(@, op.idx, op.ins)]
     [] op.o = "clear" -> <<>>
     [] OTHER -> A
 
